@@ -168,9 +168,12 @@ func (r *rpcRecorder) OnRequest(rep *replica.Replica, kind string, pack *change.
 		r.attach[rep.Name]++
 	}
 	ev.Attach = r.attach[rep.Name]
+	// the call tick is taken BEFORE the event becomes visible as open: a racing
+	// retransmission waits for isOpen() and takes its own call tick after that, so it is
+	// always ordered behind its original (it inherits the original's change ids)
+	ev.Call = r.tick.Add(1)
 	r.open[rep.Name] = ev
 	r.mu.Unlock()
-	ev.Call = r.tick.Add(1)
 }
 
 func (r *rpcRecorder) OnResponse(rep *replica.Replica, kind string, req *change.Pack, pb *api.ChangePack, err error) {
